@@ -237,6 +237,13 @@ def l2(ctx, rep):
                 rep.undecided('L2.guards', w, c, f'a test that looks like the {kind} guard is present but its form is not recognised: '
                               f'{[k for k in sorted(keys) if any(h in k.lower() for h in hints)][:3]}', construct=f'{kind} guard')
                 continue
+            opaque = [h_ for h_ in walk_no_nested(w.node) if isinstance(h_, ast.Call) and h_ is not c and h_.lineno <= c.lineno
+                      and (prog.resolve(w.module, h_.func) or '') in prog.functions
+                      and any(isinstance(x, ast.Raise) and any(isinstance(p_, (ast.For, ast.While)) for p_ in _parents_of(x)) for x in ast.walk(prog.functions[prog.resolve(w.module, h_.func)].node))]
+            if spec is None and opaque:
+                rep.undecided('L2.guards', w, opaque[0], f'`{short(opaque[0], 40)}` raises from inside a loop over checks that are not literal: whether the {kind} test is among them '
+                              'is not derived', construct=f'{kind} guard')
+                continue
             if spec is None:
                 rep.bad('L2.guards', w, c, f'the wrapped fit is reached without any {kind} test: such input is accepted (or fails late, with the model half-written)',
                         construct=f'{kind} guard')
@@ -258,6 +265,13 @@ def l2(ctx, rep):
                  and isinstance(n.value, ast.Name) and n.value.id == sp]
         rep.check('L2.guards', w, w.node.name, not early, 'the wrapper writes nothing to self',
                   'the wrapper writes to the model before validation', construct='no self writes')
+
+
+def _parents_of(node):
+    p = getattr(node, '_parent', None)
+    while p is not None:
+        yield p
+        p = getattr(p, '_parent', None)
 
 
 def _is_value_error(rs):
@@ -535,7 +549,16 @@ def l7(ctx, rep):
                         continue
                     # what the stored value depends on: self attributes read directly or through self-method calls
                     vdeps = set()
-                    for x in ast.walk(st.value):
+                    # the stored expression with its local temporaries resolved (covariance = self.correlation.to_numpy(); self._c = f(covariance))
+                    from ..idioms import assignments as _assignments
+                    exprs, seen_names = [st.value], set()
+                    for _round in range(3):
+                        for e_ in list(exprs):
+                            for x in ast.walk(e_):
+                                if isinstance(x, ast.Name) and isinstance(x.ctx, ast.Load) and x.id not in seen_names and x.id not in m.params:
+                                    seen_names.add(x.id)
+                                    exprs += [a.value for a in _assignments(m.node, x.id) if isinstance(a, ast.Assign) and a.value is not None]
+                    for x in [y for e_ in exprs for y in ast.walk(e_)]:
                         if is_self_attr(x, m.self_name) and isinstance(x.ctx, ast.Load):
                             par = getattr(x, '_parent', None)
                             if isinstance(par, ast.Call) and par.func is x:
@@ -648,7 +671,10 @@ def l6(ctx, rep, rule='L6.clone'):
     sa = prog.func(SA)
     inner = [f for f in prog.functions.values() if f.outer is sa]
     if inner:
-        w = inner[0]
+        from ..inline import inlined_view
+        w = inlined_view(ctx, inner[0])           # the recording may sit in a straight-line private helper
+        handed = [c_ for c_ in walk_no_nested(w.node) if isinstance(c_, ast.Call) and any(isinstance(a_, ast.Name) and a_.id == (w.params[0] if w.params else None) for a_ in c_.args)
+                  and (prog.resolve(w.module, c_.func) or '') in prog.functions]
         stores = set()
         for n_ in walk_no_nested(w.node):
             if isinstance(n_, ast.Assign):
@@ -667,6 +693,9 @@ def l6(ctx, rep, rule='L6.clone'):
             rep.ok(rule, w, w.node.name, 'store_args sets __args__ and __kwargs__', construct='store_args wrapper')
         elif dynamic:
             rep.undecided(rule, w, w.node.name, 'store_args sets attributes under computed names: which ones is not derived', construct='store_args wrapper')
+        elif handed:
+            rep.undecided(rule, w, handed[0], f'the instance is handed to `{short(handed[0].func, 40)}`, which was not followed: whether it records the arguments is not derived',
+                          construct='store_args wrapper')
         else:
             rep.bad(rule, w, w.node.name, 'store_args no longer records both argument sets', construct='store_args wrapper')
 
